@@ -2994,7 +2994,8 @@ class x86_mn(x86_mn_base):
         can_be_16_32 = True
         log.debug("candi:")
         for c in candidate:
-            if c.modifs[sd] or c.modifs[wd]:
+            # for MMX/SSE rows 0x66 is a mandatory prefix, not the operand size
+            if c.modifs[sd] or c.modifs[wd] or c.modifs[mmx]:
                 can_be_16_32 = False
             log.debug( c)
 
